@@ -1334,7 +1334,7 @@ outer:
 			continue
 		}
 
-		if change != nil {
+		if newver > 0 {
 			m.casSuccesses.Inc()
 			m.notifyWatchers(key)
 
@@ -1402,6 +1402,11 @@ func (m *KV) broadcastNewValue(key string, change Mergeable, version uint, codec
 		level.Warn(m.logger).Log("msg", "skipped broadcasting of locally-generated update because memberlist KV is shutting down", "key", key)
 		return
 	}
+	if change == nil {
+		// The local value changed, but there's nothing to tell to other nodes.
+		return
+	}
+
 	data, err := codec.Encode(change)
 
 	if err != nil {
@@ -1862,7 +1867,10 @@ func (m *KV) mergeValueForKey(key string, incomingValue Mergeable, incomingValue
 		if change != nil {
 			change.RemoveTombstones(limit)
 			if len(change.MergeContent()) == 0 {
-				return nil, 0, curr.Deleted, curr.UpdateTime, nil
+				// Nothing is left to gossip, but the stored value has been modified in place by the
+				// merge (e.g. an expired tombstone has removed an entry): the version must still
+				// change, so that watchers are notified and a concurrent CAS is retried.
+				change = nil
 			}
 		}
 	}
